@@ -1,8 +1,10 @@
 /* c18_faults.c -- C18: a failed allocation makes the call fail cleanly and
  * leaves the runtime intact.
  *
- * One config = one API scenario.  Every execution = one (variant, drain level,
- * fault position k) triple:
+ * One config = one family of API scenarios (a config per scenario would make
+ * the exploration latency-bound: few executions each, discovered level by
+ * level).  Every execution = one (scenario, variant, drain level, fault
+ * position k) tuple:
  *   1. dry run on a fresh runtime: build the world, perform the call without a
  *      fault and count the acquisitions N it makes (malloc family, mmap,
  *      pthread_create, pthread_*_init), use the result, tear everything down,
@@ -35,9 +37,10 @@ enum {
 enum { ENV_STD, ENV_KT64, ENV_MMAP, ENV_GUARD, ENV_AFFIN, ENV_HUGE, ENV_LOG };
 
 typedef struct {
-    const char *name; /* config name */
+    const char *group; /* config = group of scenarios */
+    const char *name; /* scenario name */
     const char *api;  /* used in violation keys */
-    int quick;
+    int quick;        /* (informative; the group decides) */
     int flags;
     int env;
     int nvariants;
@@ -128,6 +131,7 @@ static void c18_env(int envkind)
      * acquisitions are reachable in small scenarios */
     setenv("ABT_MEM_PAGE_SIZE", "4096", 1);
     setenv("ABT_MEM_STACK_PAGE_SIZE", "65536", 1);
+    setenv("ABT_SCHED_STACKSIZE", "131072", 1);
     unsetenv("ABT_KEY_TABLE_SIZE");
     unsetenv("ABT_STACK_OVERFLOW_CHECK");
     unsetenv("ABT_USE_LOG");
@@ -182,6 +186,17 @@ static int do_call(int v, long k, int *fired)
     return the_ret;
 }
 
+static const char *kdesc(long k)
+{
+    static char b[2][40];
+    static int i;
+    char *r = b[i++ & 1];
+    if (k == K_UNITFAIL)
+        snprintf(r, 40, "create_unit() of the user pool");
+    else
+        snprintf(r, 40, "acquisition #%ld", k);
+    return r;
+}
 static blkset_t B0, B1, B2;
 static snap_t SN0, SN1;
 
@@ -195,36 +210,36 @@ static void check_failed_call(int v, int ret, long k, long inuse_stack,
         abtmc_check(*outs[i].slot == SENT(void *) ||
                         *outs[i].slot == outs[i].nullv,
                     K("dangling_handle"),
-                    "%s failed (ret=%d, fault #%ld) but %s was set to %p "
+                    "%s failed (ret=%d, failing %s) but %s was set to %p "
                     "(neither untouched nor the NULL handle)",
-                    S->name, ret, k, outs[i].what, *outs[i].slot);
+                    S->name, ret, kdesc(k), outs[i].what, *outs[i].slot);
     /* ledger: nothing that existed before may have been released, and what
      * is new must be released by ABT_finalize at the latest (checked at the
      * end) */
     blk_take(&B1);
     for (int i = 0; i < B0.n; i++)
         abtmc_check(blk_has(&B1, B0.p[i], B0.sz[i]), K("freed_preexisting"),
-                    "%s failed (fault #%ld) and released a resource that "
+                    "%s failed (failing %s) and released a resource that "
                     "existed before the call (block of %zu bytes)",
-                    S->name, k, B0.sz[i]);
+                    S->name, kdesc(k), B0.sz[i]);
     /* memory pools: every descriptor / stack taken during the call is back */
     long s1 = mempool_in_use(0), d1 = mempool_in_use(1);
     abtmc_check(s1 == inuse_stack, K("mempool_leak"),
-                "%s failed (fault #%ld) and kept %ld ULT stack(s) of the "
+                "%s failed (failing %s) and kept %ld ULT stack(s) of the "
                 "memory pool (in use %ld -> %ld)",
-                S->name, k, s1 - inuse_stack, inuse_stack, s1);
+                S->name, kdesc(k), s1 - inuse_stack, inuse_stack, s1);
     abtmc_check(d1 == inuse_desc, K("mempool_leak"),
-                "%s failed (fault #%ld) and kept %ld descriptor(s) of the "
+                "%s failed (failing %s) and kept %ld descriptor(s) of the "
                 "memory pool (in use %ld -> %ld)",
-                S->name, k, d1 - inuse_desc, inuse_desc, d1);
+                S->name, kdesc(k), d1 - inuse_desc, inuse_desc, d1);
     /* getters of all pre-existing objects */
     take_snapshot(&SN1);
     abtmc_check(SN0.n == SN1.n, K("state_changed"), "snapshot size changed");
     for (int i = 0; i < SN0.n; i++)
         abtmc_check(SN0.e[i].v == SN1.e[i].v, K("state_changed"),
-                    "%s failed (ret=%d, fault #%ld) but changed %s[%d]: "
+                    "%s failed (ret=%d, failing %s) but changed %s[%d]: "
                     "%#llx -> %#llx",
-                    S->name, ret, k, SN0.e[i].name, SN0.e[i].idx,
+                    S->name, ret, kdesc(k), SN0.e[i].name, SN0.e[i].idx,
                     (unsigned long long)SN0.e[i].v,
                     (unsigned long long)SN1.e[i].v);
     if (S->after_fail)
@@ -258,7 +273,6 @@ static long choose_big(long n)
 }
 
 static int is_pair_cfg(int cfg);
-static const scen_t *scen_of(int cfg);
 
 static void final_ledger_check(long k, int ret)
 {
@@ -275,11 +289,18 @@ static void final_ledger_check(long k, int ret)
                 from_call++;
         }
         abtmc_check(0, K("leak"),
-                    "%s with fault #%ld (ret=%d): %ld resource(s), %zu bytes "
+                    "%s with failing %s (ret=%d): %ld resource(s), %zu bytes "
                     "(largest %zu) still allocated after ABT_finalize; %d of "
                     "them acquired during or after the failed call",
-                    S->name, k, ret, live, tot, mx, from_call);
+                    S->name, kdesc(k), ret, live, tot, mx, from_call);
     }
+}
+
+static char statbuf[128];
+static const char *STAT(const char *what)
+{
+    snprintf(statbuf, sizeof statbuf, "%s[%s]", what, S->name);
+    return statbuf;
 }
 
 static void scenario_world(int cfg)
@@ -332,7 +353,7 @@ static void scenario_world(int cfg)
         if (N < 1 || N > PAIR_MAX_N || nodry) {
             /* nothing to pair / too many pairs for this variant */
             abtmc_window_end();
-            abtmc_observe("pair n/a (N=%s)", N < 1 ? "0" : "large");
+            abtmc_observe("%s: pair n/a (N=%s)", S->name, N < 1 ? "0" : "large");
             return;
         }
         k = 1 + choose_big(N);
@@ -364,8 +385,8 @@ static void scenario_world(int cfg)
                     S->name, k, N);
         if (ret == ABT_SUCCESS) {
             abtmc_check(S->flags & F_FALLBACK, K("success_despite_fault"),
-                        "%s returned ABT_SUCCESS although its acquisition "
-                        "#%ld failed", S->name, k);
+                        "%s returned ABT_SUCCESS although its %s failed",
+                        S->name, kdesc(k));
         } else {
             nfail++;
             check_failed_call(v, ret, k, is0, id0);
@@ -390,8 +411,8 @@ static void scenario_world(int cfg)
                 ret = do_call(v, 0, NULL);
             }
             abtmc_check(ret == ABT_SUCCESS, K("retry_failed"),
-                        "%s failed with fault #%ld (ret=%d); the same call "
-                        "without a fault then returned %d", S->name, k,
+                        "%s failed with failing %s (ret=%d); the same call "
+                        "without a fault then returned %d", S->name, kdesc(k),
                         first_ret, ret);
         }
     }
@@ -401,20 +422,21 @@ static void scenario_world(int cfg)
     int fr = ABT_finalize();
     abtmc_check(fr == ABT_SUCCESS, K("followup"), "ABT_finalize returned %d", fr);
     abtmc_check(W.upool_live_units == 0, K("leak"),
-                "%s with fault #%ld (ret=%d): %d user-defined unit(s) were "
-                "never released through free_unit()", S->name, k, first_ret,
-                W.upool_live_units);
+                "%s with failing %s (ret=%d): %d user-defined unit(s) were "
+                "never released through free_unit()", S->name, kdesc(k),
+                first_ret, W.upool_live_units);
     final_ledger_check(k, first_ret);
     abtmc_stat("faults_injected", fired ? 1 : 0);
     abtmc_stat("failed_calls_checked", nfail);
-    if (k == K_UNITFAIL)
-        abtmc_observe("create_unit fails%s -> %s", fired ? "" : "(unused)",
-                      errname(first_ret));
-    else if (!pair)
-        abtmc_observe("k=%ld%s -> %s", k, fired ? "" : "(none)",
-                      errname(first_ret));
-    else
-        abtmc_observe("pair -> %s", errname(first_ret));
+    abtmc_stat(STAT("faults"), fired ? 1 : 0);
+    /* outcome tag: scenario x (kind of fault) x returned code; the fault
+     * positions themselves are counted in the stats */
+    abtmc_observe("%s: %s -> %s", S->name,
+                  k == K_UNITFAIL ? (fired ? "create_unit fails" : "no fault")
+                  : !fired        ? "no fault"
+                  : pair          ? "2 faults"
+                                  : "fault",
+                  errname(first_ret));
 }
 
 /* ABT_init itself: there is no world; after a failed ABT_init nothing at all
@@ -509,47 +531,72 @@ static void scenario_init(int cfg)
     B0.n = 0;
     final_ledger_check(k, first_ret);
     abtmc_stat("faults_injected", fired ? 1 : 0);
-    if (!pair)
-        abtmc_observe("k=%ld%s -> %s", k, fired ? "" : "(none)",
-                      errname(first_ret));
-    else
-        abtmc_observe("pair -> %s", errname(first_ret));
+    abtmc_stat(STAT("faults"), fired ? 1 : 0);
+    abtmc_observe("%s: %s -> %s", S->name,
+                  !fired ? "no fault" : pair ? "2 faults" : "fault",
+                  errname(first_ret));
 }
 
-/* configs: all scenarios (single faults), then the pair versions (thorough) */
+/* configs: the scenario groups (single faults), then their pair versions */
 #define NSCEN ARRAY_LEN(scens)
+#define MAXGROUPS 16
+static struct {
+    const char *name;
+    int quick, n;
+    int idx[10];
+} groups[MAXGROUPS];
+static int ngroups;
+static char pairname[MAXGROUPS][96];
+static void build_groups(void)
+{
+    for (int i = 0; i < NSCEN; i++) {
+        int g;
+        for (g = 0; g < ngroups; g++)
+            if (!strcmp(groups[g].name, scens[i].group))
+                break;
+        if (g == ngroups) {
+            if (ngroups == MAXGROUPS)
+                abort();
+            groups[g].name = scens[i].group;
+            groups[g].quick = scens[i].quick;
+            snprintf(pairname[g], sizeof pairname[g], "pair:%s", scens[i].group);
+            ngroups++;
+        }
+        if (groups[g].n == 10 || groups[g].quick != scens[i].quick)
+            abort(); /* table error */
+        groups[g].idx[groups[g].n++] = i;
+    }
+}
 static int is_pair_cfg(int cfg)
 {
-    return cfg >= NSCEN;
-}
-static const scen_t *scen_of(int cfg)
-{
-    return &scens[cfg % NSCEN];
+    return cfg >= ngroups;
 }
 static void scenario(int cfg)
 {
-    S = scen_of(cfg);
+    int g = cfg % ngroups;
+    abtmc_window_begin();
+    int si = abtmc_choose(groups[g].n, ABTMC_B_FREE);
+    abtmc_window_end();
+    S = &scens[groups[g].idx[si]];
     if (S->flags & F_INIT)
         scenario_init(cfg);
     else
         scenario_world(cfg);
 }
-static char namebuf[2 * 128][96];
 static const char *cfg_name(int i)
 {
-    if (!is_pair_cfg(i))
-        return scens[i].name;
-    snprintf(namebuf[i], sizeof namebuf[i], "pair:%s", scen_of(i)->name);
-    return namebuf[i];
+    return is_pair_cfg(i) ? pairname[i % ngroups] : groups[i].name;
 }
 static int cfg_quick(int i)
 {
-    return !is_pair_cfg(i) && scens[i].quick;
+    return !is_pair_cfg(i) && groups[i].quick;
 }
 
 int main(int argc, char **argv)
 {
-    static abtmc_driver d = { "c18_faults", "C18", 2 * NSCEN, cfg_name,
-                              scenario, cfg_quick };
+    build_groups();
+    static abtmc_driver d = { "c18_faults", "C18", 0, cfg_name, scenario,
+                              cfg_quick };
+    d.nconfigs = 2 * ngroups;
     return abtmc_main(argc, argv, &d);
 }
